@@ -174,7 +174,7 @@ class ExactGP(GP):
 
         model_batch_shape = self.train_inputs[0].shape[:-2]
 
-        if not isinstance(inputs, list):
+        if not isinstance(inputs, (list, tuple)):
             inputs = [inputs]
 
         inputs = [i.unsqueeze(-1) if i.ndimension() == 1 else i for i in inputs]
